@@ -343,6 +343,11 @@ def _iterator_attr(I, it, name):
         if kind == "yield":
             return val
         it.finished = True
+        if kind == "close":
+            # the consumer closes the delegating generator while it is suspended in `yield from <this iterator>`:
+            # Python closes this iterator and raises GeneratorExit (a BaseException, not an Exception) at the `yield from`
+            it.closed = True
+            raise SymRaise(PExc(GeneratorExit, ("generator closed while suspended",)))
         if kind == "return":
             e = PExc(StopIteration, (val,))
             e.fields["value"] = val
@@ -603,3 +608,37 @@ def install_fstrings(reg):
         return "".join(parts)
 
     reg.fstring_hook = hook
+
+
+def install_next(reg):
+    """`next(it[, default])` on a generator expression (LAZY: elements are produced one at a time, so side effects of
+    the filter conditions happen only up to the element returned) and on scripted iterators."""
+    from .interp import Env, GenExp
+
+    def hook(I, it, default):
+        if isinstance(it, GenExp) and len(it.node.generators) == 1:
+            g = it.node.generators[0]
+            if not hasattr(it, "_src"):
+                it._src = list(I.iterate(I.eval(g.iter, it.env)))
+                it._pos = 0
+            while it._pos < len(it._src):
+                x = it._src[it._pos]
+                it._pos += 1
+                e2 = Env(it.env.module, it.env)
+                I.assign_target(g.target, x, e2)
+                if all(I.decide(I.eval(c, e2)) for c in g.ifs):
+                    return I.eval(it.node.elt, e2)
+            it.consumed = True
+            if default:
+                return default[0]
+            I.raise_("StopIteration")
+        if isinstance(it, ScriptedIterator):
+            try:
+                return _iterator_attr(I, it, "send").fn(None)
+            except SymRaise as sr:
+                if sr.exc.cls is StopIteration and default:
+                    return default[0]
+                raise
+        raise PyvcError("next() on non-iterator")
+
+    reg.next_hook = hook
